@@ -12,16 +12,22 @@
 #include <map>
 using namespace vfh;
 static int g_hash = 0; static std::string g_lv = "1"; static size_t g_lvpos = 0;
-struct H { size_t operator()(int k) const { return g_hash == 0 ? (size_t)k : 5; } };
+// Keys are announced to the happens-before oracle (-hb): whoever reaches an element through the container (lookup, traversal, another
+// insert comparing against it) must see the key its inserter wrote.
+struct Key { int k; Key(int x = 0) : k(x) { vf_plain_write(&k); } Key(const Key& o) : k(o.k) { vf_plain_read(&o.k); vf_plain_write(&k); } Key& operator=(const Key& o) { vf_plain_read(&o.k); vf_plain_write(&k); k = o.k; return *this; } ~Key() { vf_plain_write(&k); }
+    operator int() const { vf_plain_read(&k); return k; }
+    bool operator<(const Key& o) const { vf_plain_read(&k); vf_plain_read(&o.k); return k < o.k; } bool operator==(const Key& o) const { vf_plain_read(&k); vf_plain_read(&o.k); return k == o.k; } };
+typedef Key KT;
+struct H { size_t operator()(const KT& key) const { int k = key; return g_hash == 0 ? (size_t)k : 5; } };
 struct Gen { static constexpr std::size_t max_level = 32; std::size_t operator()() { size_t l = g_lv[g_lvpos % g_lv.size()] - (char)48; g_lvpos++; return l < 1 ? 1 : l; } };
 using namespace tbb::detail::d2;
-typedef concurrent_skip_list<map_traits<int, int, std::less<int>, Gen, std::allocator<std::pair<const int, int>>, false>> OMap;
-typedef concurrent_skip_list<map_traits<int, int, std::less<int>, Gen, std::allocator<std::pair<const int, int>>, true>> OMMap;
-typedef concurrent_skip_list<set_traits<int, std::less<int>, Gen, std::allocator<int>, false>> OSet;
-typedef concurrent_skip_list<set_traits<int, std::less<int>, Gen, std::allocator<int>, true>> OMSet;
+typedef concurrent_skip_list<map_traits<KT, int, std::less<KT>, Gen, std::allocator<std::pair<const KT, int>>, false>> OMap;
+typedef concurrent_skip_list<map_traits<KT, int, std::less<KT>, Gen, std::allocator<std::pair<const KT, int>>, true>> OMMap;
+typedef concurrent_skip_list<set_traits<KT, std::less<KT>, Gen, std::allocator<KT>, false>> OSet;
+typedef concurrent_skip_list<set_traits<KT, std::less<KT>, Gen, std::allocator<KT>, true>> OMSet;
 template <class C> struct IsMap { static const bool value = true; };
 template <> struct IsMap<OSet> { static const bool value = false; }; template <> struct IsMap<OMSet> { static const bool value = false; };
-template <> struct IsMap<tbb::concurrent_unordered_set<int, H>> { static const bool value = false; }; template <> struct IsMap<tbb::concurrent_unordered_multiset<int, H>> { static const bool value = false; };
+template <> struct IsMap<tbb::concurrent_unordered_set<KT, H>> { static const bool value = false; }; template <> struct IsMap<tbb::concurrent_unordered_multiset<KT, H>> { static const bool value = false; };
 template <class It> int keyof(It it, std::true_type) { return it->first; } template <class It> int keyof(It it, std::false_type) { return *it; }
 inline bool succ(bool b) { return b; } template <class It> bool succ(const std::pair<It, bool>& p) { return p.second; } template <class It> bool succ(const It&) { return true; }
 template <class C> bool do_insert(C& c, int k, int tag, std::true_type) { return succ(c.insert(std::make_pair(k, tag))); }
@@ -100,15 +106,15 @@ template <class C, bool MULTI, bool ORDERED> void run() {
 }
 static void scenario() {
     const char* k = vf_param("kind", "umap"); g_hash = streq(vf_param("hash", "id"), "id") ? 0 : 1; g_lv = vf_param("lv", "1"); g_lvpos = 0;
-    if (streq(k, "umap")) run<tbb::concurrent_unordered_map<int, int, H>, false, false>();
-    else if (streq(k, "uset")) run<tbb::concurrent_unordered_set<int, H>, false, false>();
-    else if (streq(k, "ummap")) run<tbb::concurrent_unordered_multimap<int, int, H>, true, false>();
-    else if (streq(k, "umset")) run<tbb::concurrent_unordered_multiset<int, H>, true, false>();
+    if (streq(k, "umap")) run<tbb::concurrent_unordered_map<KT, int, H>, false, false>();
+    else if (streq(k, "uset")) run<tbb::concurrent_unordered_set<KT, H>, false, false>();
+    else if (streq(k, "ummap")) run<tbb::concurrent_unordered_multimap<KT, int, H>, true, false>();
+    else if (streq(k, "umset")) run<tbb::concurrent_unordered_multiset<KT, H>, true, false>();
     else if (streq(k, "omap")) run<OMap, false, true>();
     else if (streq(k, "oset")) run<OSet, false, true>();
     else if (streq(k, "ommap")) run<OMMap, true, true>();
     else if (streq(k, "omset")) run<OMSet, true, true>();
-    else if (streq(k, "cmap")) run<tbb::concurrent_map<int, int>, false, true>();
+    else if (streq(k, "cmap")) run<tbb::concurrent_map<KT, int>, false, true>();
     else vf_fail("unknown kind");
 }
 int main(int argc, char** argv) { return vf_main(argc, argv, scenario); }
